@@ -82,6 +82,8 @@ class SimSpec:
             "groups_per_scenario": hist(len(t["args"]["scen"]["groups"]) for t in tasks),
             "max_nodes": hist(t["args"]["scen"]["max_nodes"] for t in tasks),
             "time_based_x_try_add": sum(1 for t in tasks if any(g["time_based"] and g["try_add"] for g in t["args"]["scen"]["groups"])),
+            "long_delays_injected_at_critical_points": total(ok, "parks"),
+            "scenarios_with_full_slurm_state_vocabulary": sum(1 for t in tasks if t["args"]["scen"].get("squeue_vocab") == "full"),
         }
 
     def counters(self, tasks, results):
@@ -798,7 +800,12 @@ class C11(SimSpec):
         scen = scenario.gen_scenario(rng, max_jobs=9, min_jobs=5, fail_p=0.3)
         for g in scen["groups"]:
             g["batch"] = rng.randint(1, 3)
-        scen["max_nodes"] = rng.choice([None, 2, 3])
+            g["time_based"] = False
+        scen["max_nodes"] = rng.choice([None, None, 3])
+        # several batches per round: most jobs unblocked
+        for j in scen["jobs"]:
+            if rng.random() < 0.5:
+                j["blocked_by"] = []
         scen["user"] = {}
         scen["policy"] = {"kind": rng.choice(["sticky", "walk"]), "sticky": 0.7, "finish_w": 1.0, "start_w": 1.0, "time_w": 0.0}
         scen["c11"] = True
@@ -830,11 +837,16 @@ class C11(SimSpec):
                 continue
             if tier == "quick":
                 # stratified: every first occurrence of a site class, thinned to ~36 points per round
+                # (a site class is the operation, the object class and how many sbatch calls of this round precede it:
+                #  what a fault can do depends on whether something was already handed to the HPC in this round)
                 first = {}
+                nsb_before = 0
                 for i, c in enumerate(pts):
-                    first.setdefault(tuple(c), i + 1)
+                    first.setdefault(tuple(c) + (min(nsb_before, 2),), i + 1)
+                    if c[0] == "popen" and c[1] == "sbatch":
+                        nsb_before += 1
                 ks = sorted(first.values())
-                step = max(1, len(ks) // 36)
+                step = max(1, len(ks) // 60)
                 ks = ks[::step]
                 modes = [("", 0)]
             else:
